@@ -5,13 +5,13 @@ From Coq Require Import Permutation.
 
 Section Spec.
   Variable L R : Type.
-  Variable l_pre : L -> N -> L.
+  Variable l_pre : L -> bmeta -> L.
   Variable l_check : L -> tx -> bool.
   Variable l_exec : L -> tx -> xres L.
-  Variable l_post : L -> N -> L * R.
+  Variable l_post : L -> N -> bmeta -> L * R.
   Variable commit_of : L -> list tx -> list N.
-  Variable uh_at : N -> N.
-  Variable height_of : N -> N.
+  Variable uh_at : bmeta -> N.
+  Variable height_of : bmeta -> N.
 
   Notation State := (state L).
   Notation App := (app L R).
@@ -70,13 +70,13 @@ Definition stmt_no_path_dependent_failure : Prop :=
 (** Multi-block histories: heights chained through Commit. *)
 Section History.
   Variable L R : Type.
-  Variable l_pre : L -> N -> L.
+  Variable l_pre : L -> bmeta -> L.
   Variable l_check : L -> tx -> bool.
   Variable l_exec : L -> tx -> xres L.
-  Variable l_post : L -> N -> L * R.
+  Variable l_post : L -> N -> bmeta -> L * R.
   Variable commit_of : L -> list tx -> list N.
-  Variable uh_at : N -> N.
-  Variable height_of : N -> N.
+  Variable uh_at : bmeta -> N.
+  Variable height_of : bmeta -> N.
 
   (** run a history of (rounds, decided block); stops at the first height that does not commit *)
   Fixpoint history (c : state L) (hs : list (list round * block)) : list (outcome L R) * state L :=
@@ -126,3 +126,9 @@ Definition stmt_esm_skip_sound : Prop :=
 Definition stmt_price_order_irrelevant : Prop :=
   forall (o : ostate) (ps ps' : list (N * N)) (h : N),
     Permutation ps ps' -> NoDup (map fst ps) -> apply_prices o ps h = apply_prices o ps' h.
+
+(** The cached-proposal comparison (the derived [PartialEq] of [CachedProposal]) is exact: it holds
+    for the very same time, proposer, txs, last commit, misbehavior, next validators hash and
+    height only -- a proposal differing in any one of them is never taken for the cached one. *)
+Definition stmt_cached_compare_exact : Prop :=
+  forall p q : proposal, proposal_eqb p q = true <-> p = q.
